@@ -164,17 +164,6 @@ def classify_put(doc, path, rkind, got, want):
         return "put-raises-%s" % got[1]
     if got[0] == "cyclic":
         return "put-cyclic-alias"
-    if "'" in path:
-        # model of the defect: quotes are kept in member names (and '.' inside quotes splits the name)
-        toks = [int(t) if t.isdigit() else t for t in engine_tokens(path)]
-        try:
-            model = ("value", R.put_tokens(doc if doc is not None else {}, toks, follow(doc, rkind[1]) if rkind[0] == "sub" else (doc if rkind[0] == "self" else rkind[1])))
-        except R.Unplaceable:
-            model = ("unplaceable",)
-        except Exception:
-            model = None
-        if model is not None and same(got, model):
-            return "put-bracket-quotes-kept"
     return "put-wrong"
 
 def _chunk(args):
